@@ -74,6 +74,7 @@ package store
 //@   ensures [commit-at-most-once] commitNilCalls <= old(commitNilCalls) + 1 && txnBegins <= old(txnBegins) + 1
 //@   ensures [no-transaction-no-delete] txnBegins == old(txnBegins) ==> txnDeletes == old(txnDeletes) && commitNilCalls == old(commitNilCalls) && commitErrCalls == old(commitErrCalls)
 //@   ensures metaPuts == old(metaPuts)
+//@   modifies txnBegins, txnDeletes, directDeletes, lastMetaDelete, commitNilCalls, commitErrCalls, fresh(meta.TaskInfo.*), fresh([]*meta.TaskInfo), maps(string;struct{})
 //@   panics never
 // the final `return nil, err` can only be reached with err == nil excluded: dead code
 //@   unreachable return@1
@@ -85,6 +86,11 @@ package store
 //@   ensures result == (exists i int :: 0 <= i && i < len(collection) && collection[i] == element)
 //@   modifies nothing
 
+// lo.Map(collection, f): applies f to every element; f here is a pure formatter (samber/lo source)
+//@ trusted func github.com/samber/lo.Map
+//@   params collection iteratee
+//@   modifies nothing
+
 //@ func UpdateTaskState
 //@   props C11 C12 C06
 //@   requires taskInfoStore != nil
@@ -92,6 +98,7 @@ package store
 //@   ensures [error-writes-nothing-or-the-write-failed] err == nil ==> metaPuts == old(metaPuts) + 1
 //@   ensures [written-record-has-the-new-state] metaPuts == old(metaPuts) + 1 ==> as(lastMetaPut, "*meta.TaskInfo").State == newState && as(lastMetaPut, "*meta.TaskInfo").Reason == reason && lastMetaPutTxn == nil
 //@   ensures directDeletes == old(directDeletes) && txnDeletes == old(txnDeletes)
+//@   modifies metaPuts, lastMetaPut, lastMetaPutTxn, fresh(meta.TaskInfo.*), fresh([]*meta.TaskInfo), maps(string;struct{})
 //@   panics never
 
 // ---- C12 / C05: read-modify-write of one channel entry; dropped entries are frozen -----------------------
